@@ -58,7 +58,7 @@ const REAL_BLOCK: &[&str] = &[
     "coap_lite::BlockHandler::intercept_request / intercept_response (incl. BlockValue codec)",
     "lru_time_cache 0.11.11 (clock read through the FakeClock seam)",
 ];
-const STUB_BLOCK: &[&str] = &["network (SimNet: latency, drop, dup, delay, corruption)", "clock source (simulated, event driven)", "client state machines", "server loop glue (written from README.md / examples/server.rs)", "application (deterministic resource table)"];
+const STUB_BLOCK: &[&str] = &["network (SimNet: latency, drop, dup, delay, corruption)", "clock source (simulated, event driven; seams: lru_time_cache clock type and clock_gettime)", "client state machines", "server loop glue (written from README.md / examples/server.rs)", "application (deterministic resource table)"];
 
 fn props() -> Vec<PropCfg> {
     vec![
@@ -68,7 +68,7 @@ fn props() -> Vec<PropCfg> {
             level: "exploration",
             quick_runs: 300_000,
             thorough_runs: 6_000_000,
-            rule: "Two of three runs are of the `blockwise` family, one of three of the `directed` family (one client, fault-free link, block sizes 16/32/64, every body length 0..3*size+1, budgets right above the smallest admissible one and around exactly admitting the block size, every client preference, duplicate patterns, abandoned prefixes, a second transfer on the same key); same oracles. One evaluation = one seeded simulated run. `blockwise`: (1-4 clients, 1-3 transfers each, budget drawn relative to the measured overheads, swarm-drawn drop/dup/delay faults, client retransmission timers on the simulated clock). Non-trivial = a download that the ground-truth premise classifier placed inside C08's premise (blocks 0,1,2,... arrived once each in order, contiguous on its key, budget in [overhead+28,1280]) and that took >= 2 exchanges; distinct = distinct abstract tuples (exchange count, block size chosen, body length class mod block size, (budget-overhead-28)/8 bucket, option-set size, early-negotiation exponent, reduction exponent, token length), counted by 64-bit hash.",
+            rule: "Two of three runs are of the `blockwise` family, one of three of the `directed` family (one client, fault-free link, block sizes 16/32/64, every body length 0..3*size+1, budgets right above the smallest admissible one and around exactly admitting the block size, every client preference, duplicate patterns, abandoned prefixes, a second transfer on the same key); same oracles. One evaluation = one seeded simulated run. `blockwise`: (1-4 clients, 1-3 transfers each, budget drawn relative to the measured overheads, swarm-drawn drop/dup/delay faults, client retransmission timers on the simulated clock). Non-trivial = a download that the ground-truth premise classifier placed inside C08's premise (blocks 0,1,2,... arrived once each in order, contiguous on its key, budget in [overhead+28,1280]) and that took >= 2 exchanges; distinct = distinct abstract tuples (exchange count, block size chosen, body length class mod block size, (budget-overhead-28)/8 bucket, option-set size, early-negotiation exponent, reduction exponent, token length), counted by 64-bit hash. Added later in the blockwise family: server expiry drawn from 250 ms .. 10^6 s (a transfer during which its own state expired is outside the premise), token length varying inside a transfer, the M bit set in request Block2 options, 300-700 distinct noise keys, patterned bodies, message ids near the wrap.",
             assumptions: &["the stub server loop drives the library the way README.md and examples/server.rs show", "client stubs and oracles use an independent reference codec (encoder, parser, block option codec), not the crate's", "sampling: a clean batch is evidence, not proof", "bodies <= 20000 bytes, <= 4095 blocks"],
             real: REAL_BLOCK,
             stub: STUB_BLOCK,
@@ -145,7 +145,7 @@ fn props() -> Vec<PropCfg> {
             level: "fault_enumeration",
             quick_runs: 30_000,
             thorough_runs: 1_000_000,
-            rule: "Documents (0-4 links x 0-4 attributes, all four attribute writers, values over an alphabet of quotes, backslashes, separators, angle brackets, spaces, newlines and 2/3/4-byte characters, newline option on/off) are sampled by seed; for EACH document the fault space is swept completely: every index k of the write calls the fault-free run issues x {fail only call k, fail call k and all later ones, torn write: call k accepts a prefix on a char boundary then fails}. One evaluation = one faulted write of one document (plus one fault-free write per document). Distinct non-trivial = distinct (document, fault position k, fault mode) triples, counted as 3 x write calls per distinct document; distinct_secondary = distinct (kind of write call hit, mode, newline option, first/later link) classes.",
+            rule: "Documents (0-4 links x 0-4 attributes, all four attribute writers, values over an alphabet of quotes, backslashes, separators, angle brackets, spaces, newlines and 2/3/4-byte characters, newline option on/off) are sampled by seed; for EACH document the fault space is swept completely: every index k of the write calls the fault-free run issues x {fail only call k, fail call k and all later ones, torn write: call k accepts a prefix on a char boundary then fails}. One evaluation = one faulted write of one document (plus one fault-free write per document). Distinct non-trivial = distinct (document, fault position k, fault mode) triples, counted as 3 x write calls per distinct document; distinct_secondary = distinct (kind of write call hit, mode, newline option, first/later link) classes. Added later: 1 document in 40 has 250-310 (mostly bare) links, 1 quoted value in 10 has 40-140 characters; and the fault-free output must read back, with an independent tolerant RFC 6690 reader, as exactly the document's links and attributes (clause ok-complete).",
             assumptions: &["exhaustive per sampled document, not over documents (coverage.exhaustive=false refers to the property)", "fmt::Write sinks fail only by returning Err from write_str"],
             real: &["coap_lite::link_format::LinkFormatWrite / LinkAttributeWrite (link, attr, attr_quoted, attr_u32, attr_u16, finish)"],
             stub: &["fmt::Write sink with injected failures (fail once / fail from / torn)", "document generator"],
@@ -180,7 +180,7 @@ fn props() -> Vec<PropCfg> {
             thorough_runs: 1_500_000,
             rule: "One evaluation = one seeded simulated run of the `expiry` family: cache_expiry_duration drawn from {20-60 ms, 1 s, 120 s, 1 h, 49 days}; an observed download (cached response) or upload (buffered prefix) of 3-8 blocks is paused before each exchange for an idle gap drawn relative to the expiry (0, 1/10, 1/2, expiry-1ns, expiry, expiry+1ns, 4x, 1000x, or a chain of gaps each 0.6x); meanwhile 0-2000 noise requests (on up to 12 hot keys, or one distinct key per request), requests of the observed endpoint itself with another method on the same path, and 0-50 abandoned transfers of other endpoints touch the handler. The fixed-latency network makes arrival-time differences exact, so the reference model (key -> last touch) is two-sided and exact: alive iff idle < expiry, expired iff idle > expiry, either at equality. After every handler call (every 97th, and every call of the observed endpoint, in the runs with more than 64 live keys) the hook snapshot of physically held entries (clock rewound to 0 for the read) is compared with the model. Non-trivial = runs whose observed transfer had at least one non-zero idle gap evaluated; distinct = distinct (kind, per-gap class and bucket relative to the expiry) sequences, counted by 64-bit hash.",
             assumptions: &[
-                "the handler reads time through lru_time_cache's clock type (canary: a run in which the handler never reads the simulated clock aborts the check with exit 2, not 1)",
+                "the handler reads time through lru_time_cache's clock type (replaced by the simulator's) or through the C library's clock_gettime (defined by the simulator, answered with simulated time during a run); canary: a run in which the handler reads neither aborts the check with exit 2, not 1",
                 "uses the cfg(coap_lite_verif) snapshot hook for the held-entries comparison",
                 "at idle == expiry exactly both outcomes are accepted",
             ],
@@ -193,7 +193,7 @@ fn props() -> Vec<PropCfg> {
             level: "exploration",
             quick_runs: 300_000,
             thorough_runs: 5_000_000,
-            rule: "The first choice picks the family: `isolation` (2 of 4) or `hostile` / `blockwise` (1 of 4 each; there only the reply-ids clause - every reply the handler produces, including error replies and cached blocks, carries the message id and token of the request being answered - is C12's). One evaluation of the `isolation` family: 2-3 scripted transfers (uploads incl. upload-then-download, or downloads incl. early negotiation; 2-5 blocks; scripted reply losses with retransmission and duplicated blocks) whose cache keys pairwise differ in exactly one of endpoint / method / path (segmentation [a,b] vs [a/b], prefixes, case, empty path vs one empty segment) are interleaved by a seeded scheduler (uniform or PCT-style priorities with change points; optionally split-phase: request, other clients' exchanges, then application + response), and each is re-run solo against a fresh handler; reply transcripts must be byte-identical. Non-trivial = runs with at least one switch between transfers; distinct = distinct (shape, server-step order) interleavings by 64-bit hash. coverage.reached_vs_possible gives reached/possible for the 2-transfer, non-split shapes (possible = binomial(n1+n2, n1)).",
+            rule: "The first choice picks the family: `isolation` (2 of 4) or `hostile` / `blockwise` (1 of 4 each; there only the reply-ids clause - every reply the handler produces, including error replies and cached blocks, carries the message id and token of the request being answered - is C12's). One evaluation of the `isolation` family: 2-3 scripted transfers (uploads incl. upload-then-download, or downloads incl. early negotiation; 2-5 blocks; scripted reply losses with retransmission and duplicated blocks) whose cache keys pairwise differ in exactly one of endpoint / method / path (segmentation [a,b] vs [a/b], prefixes, case, empty path vs one empty segment) are interleaved by a seeded scheduler (uniform or PCT-style priorities with change points; optionally split-phase: request, other clients' exchanges, then application + response), and each is re-run solo against a fresh handler; reply transcripts must be byte-identical. Non-trivial = runs with at least one switch between transfers; distinct = distinct (shape, server-step order) interleavings by 64-bit hash. coverage.reached_vs_possible gives reached/possible for the 2-transfer, non-split shapes (possible = binomial(n1+n2, n1)). Added later: 1/3 of the isolation runs are timed (expiry 40-100 ms, clock jumps of 0.3-0.9 expiry between server steps; the solo run of a client replays the simulated times and split-phase decisions that client had in the interleaved run), 1/10 use 20-64 KiB representations in 1024-byte blocks with clients that walk away after 3-6 exchanges.",
             assumptions: &[
                 "the property's quantifier says 'exhaustively enumerated'; this technique samples: exhaustive=false, reached/possible reported per shape",
                 "client behaviour is a function of its materialised script and of the replies it receives (no timers, no latencies in this family)",
@@ -205,7 +205,7 @@ fn props() -> Vec<PropCfg> {
     ]
 }
 
-const OBS_RULE: &str = "Two thirds of the runs: a server loop around the real Subject/create_notification with 2-5 observer clients (register, re-register with a new token, deregister with the current or a stale token, ACK with probability 0-100%, go silent, bogus ACKs with unknown / other endpoints' / stale message ids), 1-3 resource paths, limit drawn from {0,1,2,3,10,254,255}, 1-40 notification rounds (260-600 in long runs, which reach the 8-bit counter edge) with per-round CON/NON, over links with drop/dup/delay. One evaluation = one operation the server performed on the Subject, after which the full registry (with the hook also the private counters) is compared with the reference model (refinement). Distinct non-trivial = distinct abstract registry states reached (per path: observer count, multiset of min(unacked, limit+1, 6), number of pending acknowledgements; limit class); distinct_secondary = distinct operation bigrams. One third of the runs are direct short histories (1-8 operations over 2 endpoints x 2 tokens x 2 paths (+ an unobserved one) x 2 message ids x {CON,NON}, limits 0-2, applied without a network; coverage.reached_vs_possible reports how many of the possible histories of depth 1-4 were reached). About a quarter of the network runs and 4% of the direct operations change the limit mid-history (set_unacknowledged_limit; tolerant model). Thorough tier: additionally 70 000-round marathons (sequence crosses 65 536).";
+const OBS_RULE: &str = "Two thirds of the runs: a server loop around the real Subject/create_notification with 2-5 observer clients (register, re-register with a new token, deregister with the current or a stale token, ACK with probability 0-100%, go silent, bogus ACKs with unknown / other endpoints' / stale message ids), 1-3 resource paths, limit drawn from {0,1,2,3,10,254,255}, 1-40 notification rounds (260-600 in long runs, which reach the 8-bit counter edge) with per-round CON/NON, over links with drop/dup/delay. One evaluation = one operation the server performed on the Subject, after which the full registry (with the hook also the private counters) is compared with the reference model (refinement). Distinct non-trivial = distinct abstract registry states reached (per path: observer count, multiset of min(unacked, limit+1, 6), number of pending acknowledgements; limit class); distinct_secondary = distinct operation bigrams. One third of the runs are direct short histories (1-8 operations over 2 endpoints x 2 tokens x 2 paths (+ an unobserved one) x 2 message ids x {CON,NON}, limits 0-2, applied without a network; coverage.reached_vs_possible reports how many of the possible histories of depth 1-4 were reached). About a quarter of the network runs and 4% of the direct operations change the limit mid-history (set_unacknowledged_limit; tolerant model). Thorough tier: additionally 70 000-round marathons (sequence crosses 65 536). Added later: 1 network run in 25 has a crowd of 17-48 observers.";
 const OBS_ASSUME: &[&str] = &[
     "uses the cfg(coap_lite_verif) Observer accessors to compare private counters; without them only observer lists and eviction rounds are compared",
     "resource absent and resource without observers are treated as equal, except for a path nobody ever registered for",
@@ -214,7 +214,7 @@ const OBS_ASSUME: &[&str] = &[
 const OBS_REAL: &[&str] = &["coap_lite::Subject::{register, deregister, resource_changed, acknowledge, get_resource, get_resource_observers, set_unacknowledged_limit}", "coap_lite::create_notification", "coap_lite::Packet::from_bytes / to_bytes_unlimited", "coap_lite::CoapRequest::{from_packet, get_path, get_observe_flag, set_observe_flag}"];
 const OBS_STUB: &[&str] = &["network (SimNet: drop, dup, delay)", "observer clients", "server notification loop (written from the doc comment on resource_changed)", "reference model of the registry"];
 
-const WIRE_RULE: &str = "One evaluation = one seeded simulated run of the `wire` family: block-wise traffic with option sets on the delta/length codec boundaries plus a byzantine sender crosses links that truncate, flip, set, insert, delete bytes and append garbage (1-2 steps per affected datagram); half of the clients sit behind a forwarding proxy that parses and re-serialises; 1 in 80 byzantine datagrams sits in the 64 KiB corner (16-bit extended length 0xFEF1..0xFFFF with the whole value present). The reference parser (three-valued verdict) is compared with Packet::from_bytes on every datagram any node parses (counters wire.ref.* give the number of datagrams). Distinct non-trivial = distinct datagram classes reached: hash of (reference verdict class, failing grammar production, nibble classes seen for delta and for length, option count capped at 6, TKL, marker presence, payload length capped at 3).";
+const WIRE_RULE: &str = "One evaluation = one seeded simulated run of the `wire` family: block-wise traffic with option sets on the delta/length codec boundaries plus a byzantine sender crosses links that truncate, flip, set, insert, delete bytes and append garbage (1-2 steps per affected datagram); half of the clients sit behind a forwarding proxy that parses and re-serialises; 1 in 80 byzantine datagrams sits in the 64 KiB corner (16-bit extended length 0xFEF1..0xFFFF with the whole value present). The reference parser (three-valued verdict) is compared with Packet::from_bytes on every datagram any node parses (counters wire.ref.* give the number of datagrams). Distinct non-trivial = distinct datagram classes reached: hash of (reference verdict class, failing grammar production, nibble classes seen for delta and for length, option count capped at 6, TKL, marker presence, payload length capped at 3). Added later: 1 byzantine datagram in 6 is a well-formed message whose recognised options and payload carry values that a normalising parser would touch (content formats with BOM / white space / NUL at either end of the payload, URIs with upper case, dot segments, percent escapes, default ports; integers with leading zeros).";
 const WIRE_ASSUME: &[&str] = &[
     "narrowed quantifier: byte strings reachable from generated well-formed traffic by <= 2 corruption steps, plus structured-random and raw random strings, plus 64 KiB-corner datagrams; not every byte string",
     "the reference parser was written from RFC 7252 section 3 independently of src/packet.rs",
